@@ -43,7 +43,8 @@ EXPLANATION = (
     "protocol the proxy fetches with is interpreted abstractly with exc set (header received or "
     "not) and with a clean close before any header: every feasible path ends in set_exception, "
     "so an upstream reset mid-body cannot be relayed as a truncated 20. "
-    "(Z7) = C17.Y5: each location is served with its own timeout."
+    "(Z7) = C17.Y5: each location is served with its own timeout. "
+    "(Z8) = C13.E2. (Z9) = C15.X2: the front end's request timer is off while the handler runs. (Z10) GeminiResponse.charset matches the parameter name case-insensitively."
 )
 
 PROXY = "server.proxy:ProxyHandler"
